@@ -65,11 +65,13 @@ type sStream struct {
 	segs      []*sSeg
 	init      []byte
 	initURI   string
-	initBR    int               // EXT-X-MAP BYTERANGE: 0 none, 1 "n@o", 2 "n" (no offset: from the start of the resource)
-	initOff   uint64            // offset of the init section inside its resource (initBR 1)
-	blobs     map[string][]byte // byte-range resources by URI
-	blobURI   string
-	plURL     *url.URL
+	// the playlist carries EXT-X-SERVER-CONTROL without CAN-BLOCK-RELOAD and an EXT-X-PRELOAD-HINT
+	hintNoBlock bool
+	initBR      int               // EXT-X-MAP BYTERANGE: 0 none, 1 "n@o", 2 "n" (no offset: from the start of the resource)
+	initOff     uint64            // offset of the init section inside its resource (initBR 1)
+	blobs       map[string][]byte // byte-range resources by URI
+	blobURI     string
+	plURL       *url.URL
 	// playlist evolution
 	mode       string // vod | event | live | scripted
 	window     int
@@ -256,6 +258,10 @@ func (st *sStream) playlist(first, last int, endlist bool, skipTo int) []byte {
 	if st.plType != "" {
 		fmt.Fprintf(&b, "#EXT-X-PLAYLIST-TYPE:%s\n", st.plType)
 	}
+	if st.hintNoBlock {
+		// a server that publishes a preload hint but cannot block playlist reloads: not a Low-Latency session
+		b.WriteString("#EXT-X-SERVER-CONTROL:PART-HOLD-BACK=3.00000\n#EXT-X-PART-INF:PART-TARGET=1.00000\n")
+	}
 	if st.container == "fmp4" {
 		switch st.initBR {
 		case 1:
@@ -280,6 +286,15 @@ func (st *sStream) playlist(first, last int, endlist bool, skipTo int) []byte {
 			}
 		}
 		b.WriteString(sg.uri + "\n")
+	}
+	if st.hintNoBlock && !endlist {
+		h := last + 1
+		if h >= len(st.segs) {
+			h = len(st.segs) - 1
+		}
+		if h >= 0 && !st.segs[h].hasBR {
+			fmt.Fprintf(&b, "#EXT-X-PRELOAD-HINT:TYPE=PART,URI=\"%s\"\n", st.segs[h].uri)
+		}
 	}
 	if endlist {
 		b.WriteString("#EXT-X-ENDLIST\n")
